@@ -351,5 +351,5 @@ func TestProp(t *testing.T) {
 }
 
 func TestReplay(t *testing.T) {
-	core.Replay(t, selectOne, selectGrid, schedule, stress, earlyWaiters, headAtRead, headOrder, switchCatchUp, undrainedHeads)
+	core.Replay(t, selectOne, selectGrid, schedule, stress, earlyWaiters, headAtRead, headOrder, switchCatchUp, undrainedHeads, runIdle)
 }
